@@ -59,8 +59,7 @@ def register(reg):
     NL = "self.partition.node_list"
     ALLN = "for h in range(self.partition.depth + 1) for k in range(len(%s[h]))" % NL
     pred("UFormula_HOO", "A, n",
-         "implies(n.visited_times != 0, n.u_value == xr(n.mean_reward + sqrt(2 * ln(A.rounds) / n.visited_times) "
-         "+ A.nu * rpow(A.rho, n.depth)))")
+         "implies(n.visited_times != 0, n.u_value == xr(hoo_u(n.mean_reward, n.visited_times, n.depth, A.nu, A.rho, A.rounds)))")
     pred("PathOK", "P, path", "len(path) >= 1 and len(path) <= P.depth + 1 "
                               "and all(path[k].depth == k and path[k] in P.node_list[k] for k in range(len(path))) "
                               "and all(path is not P.node_list[h] for h in range(P.depth + 1))")
